@@ -269,7 +269,8 @@ class ContractionTree:
         self.track_childless = track_childless
         if self.track_childless:
             # the set of dangling nodes
-            self.childless = oset([self.root])
+            # (the root of a single tensor 'tree' is a leaf, never childless)
+            self.childless = oset([self.root] if self.N > 1 else [])
 
         # running largest_intermediate and total flops
         self._track_flops = track_flops
